@@ -1,9 +1,11 @@
 From Coq Require Import extraction.Extraction extraction.ExtrOcamlBasic.
-From TU Require Import Base C19_Model C19_Lit NFKC_Tie.
+From TU Require Import Base C19_Model C19_Lit NFKC_Tie MsgPack_Model C19_File.
 Definition run := run_C19.
 Definition check := check_C19.
 (* relational check of the table (agree_C19) and the literal replay of the observed statistics (trace_ok);
    nf_agree: the model's own BufRead::lines + clean + normalize of every raw corpus line equals the proc
-   oracle, and its normalize_model equals the crate's normalize on every side-channel string (4 forms x 2 modes; results in field 6 of the implementation output) *)
-Definition agree (inp m i : val) : bool := agree_lit inp m i && nf_agree inp i.
+   oracle, and its normalize_model equals the crate's normalize on every side-channel string (4 forms x 2 modes; results in field 6 of the implementation output);
+   file_agree_C19: the bytes train_bpe wrote (field 7) are mp_encode of the table in the file's entry order and
+   decode, by the model's own MessagePack reader, to the table the real loader returned (field 0) *)
+Definition agree (inp m i : val) : bool := agree_lit inp m i && nf_agree inp i && file_agree_C19 i.
 Extraction "model.ml" run check agree.
